@@ -331,7 +331,7 @@ func parseModel(out string, terms []string) map[string]string {
 
 // solveAll discharges the obligations in parallel; returns the scratch directory used.
 func solveAll(vcs []*VC, obls []*Obligation, vcOf map[*Obligation]*VC, tier string, scratch string) {
-	timeout := 20 * time.Second
+	timeout := 30 * time.Second
 	if v := os.Getenv("GOVC_TIMEOUT"); v != "" {
 		if d, err := time.ParseDuration(v); err == nil {
 			timeout = d
